@@ -40,10 +40,21 @@ def build(tier, known):
                          bound=f'three AR-PACKAGE elements whose only content is a SHORT-NAME; item names of {ls} bytes over [A-Za-z][A-Za-z0-9_]*; locks and Arc replaced by single-threaded stand-ins',
                          claim='cmp(a,a) = Equal; antisymmetric; transitive; Equal <=> equal names',
                          native=('data', 'n_c14_element_order'), timeout=1200 if q else 7200, known_keys=('C14-element-name-order-cycle',)))
+    # ---- ElementRaw::sort itself (recursive) on a small tree ----
+    hs.append(Harness('n_c14_sort', 'data', 'element.rs', '', functions=[], bound='', claim='', role='native'))
+    shapes = [[1, 1], [2, 1], [2, 2], [1, 1, 1]] if q else [[1, 1], [2, 1], [2, 2], [1, 1, 1], [2, 2, 1], [3, 2], [2, 2, 2]]
+    for ny in shapes:
+        hs.append(E2Spec(f'e2_c14_sort_{"_".join(map(str, ny))}', 'C14Sort', dict(ny=ny),
+                         functions=['elementraw::ElementRaw::sort', 'element::Element::sort', '<Element as Ord>::cmp', 'Element::get_sub_element', 'Element::item_name', 'Element::character_data', '<CharacterData as Ord>::cmp',
+                                    'elementraw::ElementRaw::sort::{closure#0}'],
+                         bound=f'tree SDGS > SDG x {len(ny)} > SD x {ny} (reorderable containers without item names, INDEX, DEFINITION-REF or DEST: the siblings are ordered by their content); every SD value one symbolic lower-case letter; '
+                               'slice::sort_by is a stable insertion sort through the real comparison closure; locks and Arc replaced by single-threaded stand-ins',
+                         claim='after sort(): every sibling compares <= its successor under the real Element::cmp evaluated on the FINAL state, every child is sorted, the content is kept, sorting again changes nothing, and the result is the same when the siblings and the values start in reversed order',
+                         native=('data', 'n_c14_sort'), timeout=1200 if q else 7200))
     info = dict(
         assumptions=['E2 library models (mirsym/models.py) trusted, validated against the native build; f64 comparison = IEEE 754 (z3 FP theory)'],
         outside_claim=['element comparison beyond the item-name rule (INDEX sub-elements, DEFINITION-REF, DEST, deeper content) and everything else sort does',
-                       'content preservation / validity / index integrity after sort, restriction to reorderable containers (element tree)',
+                       'sort on larger trees, on ordered (non-sortable) containers, Mixed content and with INDEX / DEFINITION-REF keys; index integrity after sort',
                        'strings longer than the stated bound; enum items and attribute names beyond the first three'],
     )
     return hs, {}, info
